@@ -53,6 +53,8 @@ type recipe struct {
 	Expect  string `json:"model_says"`
 	Got     string `json:"got"`
 	Path    string `json:"path"`
+	// BundleID: what the bundle's own id field was filled with
+	BundleID string `json:"bundle_id_field,omitempty"`
 	// TokenRemovalFails: the storage refuses to remove the token record during this request
 	TokenRemovalFails bool `json:"storage_fails_to_remove_token_record,omitempty"`
 }
@@ -300,7 +302,7 @@ func TestProp_Enrollment(t *testing.T) {
 				r := recipe{}
 				// presets steer half of the requests next to a qualifying one (then at
 				// most one binding is off); the rest are free combinations
-				preset := rapid.SampledFrom([]string{"free", "free", "near-record", "near-token", "near-wrapped", "near-rewrapped"}).Draw(t, "preset")
+				preset := rapid.SampledFrom([]string{"free", "free", "near-record", "near-token", "near-wrapped", "near-rewrapped", "impersonate-record"}).Draw(t, "preset")
 				r.Cert = pick("certKey")
 				if preset == "near-token" {
 					// prefer a key without a record
@@ -313,6 +315,22 @@ func TestProp_Enrollment(t *testing.T) {
 					if len(free) > 0 && rapid.IntRange(0, 3).Draw(t, "freeKey") > 0 {
 						r.Cert = free[rapid.IntRange(0, len(free)-1).Draw(t, "which")]
 					}
+				}
+				// "impersonate-record": everything in the request is taken from the record of
+				// another key (nonce, encryption key, and the bundle's own id field names that
+				// record) - except the certificate key, which is the requester's own
+				victim := ""
+				if preset == "impersonate-record" {
+					var withRec []string
+					for _, n := range names {
+						if model[n] != nil && n != r.Cert && len(model[n].nonce) == nodeenrollment.NonceSize && bytes.Equal(pubOf(actors[n].EncPriv), model[n].encPub) {
+							withRec = append(withRec, n)
+						}
+					}
+					if len(withRec) > 0 {
+						victim = withRec[rapid.IntRange(0, len(withRec)-1).Draw(t, "victim")]
+					}
+					preset = "free"
 				}
 				ca := actors[r.Cert]
 				// encryption key
@@ -381,6 +399,10 @@ func TestProp_Enrollment(t *testing.T) {
 					}
 					r.Nonce += fmt.Sprintf("(age %v, max lifetime %v)", tok.age, maxLife)
 				}
+				if victim != "" {
+					encPriv, encPub, nonce, tok = actors[victim].EncPriv, model[victim].encPub, model[victim].nonce, nil
+					r.Enc, r.Nonce = "of the record of "+victim, "of the record of "+victim
+				}
 				info := vkit.InfoFor(ca.CertPkix, encPub, nonce, time.Now().Add(-time.Second), time.Now().Add(time.Hour))
 				// wrapped registration info
 				r.Wrapped = rapid.SampledFrom([]string{"none", "none", "none", "server-wrapper", "foreign-wrapper", "other-nonce", "other-key", "garbage"}).Draw(t, "wrapped")
@@ -427,6 +449,31 @@ func TestProp_Enrollment(t *testing.T) {
 					info.WrappingRegistrationFlowInfo = &types.WrappingRegistrationFlowInfo{CertificatePublicKeyPkix: ca.CertPkix, Nonce: nonce}
 				case "other":
 					info.WrappingRegistrationFlowInfo = &types.WrappingRegistrationFlowInfo{CertificatePublicKeyPkix: rnd(44), Nonce: rnd(32)}
+				}
+				// the bundle has an id field of its own, which the requester may fill with
+				// anything (library-built requests leave it empty); it must have no bearing
+				bundleID := rapid.SampledFrom([]string{"unset", "unset", "unset", "own-key-id", "other-actor-key-id", "garbage"}).Draw(t, "bundleIdField")
+				if victim != "" && bundleID != "unset" {
+					bundleID = "victim"
+					info.Id = actors[victim].KeyID
+					r.BundleID = "key id of " + victim
+				}
+				switch bundleID {
+				case "own-key-id":
+					info.Id = ca.KeyID
+					r.BundleID = "own key id"
+				case "other-actor-key-id":
+					var names []string
+					for n := range actors {
+						names = append(names, n)
+					}
+					sort.Strings(names)
+					o := names[rapid.IntRange(0, len(names)-1).Draw(t, "bundleIdOf")]
+					info.Id = actors[o].KeyID
+					r.BundleID = "key id of " + o
+				case "garbage":
+					info.Id = "no-such-record"
+					r.BundleID = "garbage"
 				}
 				req := vkit.Sign(info, ca.CertPriv)
 				// re-wrapped info (outside the signed bundle)
